@@ -113,10 +113,13 @@ def _case(args):
         src = os.path.join(d, 'in.h5ad')
         with warnings.catch_warnings():
             warnings.simplefilter('ignore')
+            # the matrix that was NOT asked for holds other values, of another magnitude and integrality
             if s['layerIsX']:
-                a = anndata.AnnData(X=X, obs=obs, var=var)
+                decoy = np.full(M.shape, 70000.5 if float(val(s['hi'])) < 60000 else 0.5)
+                a = anndata.AnnData(X=X, obs=obs, var=var, layers={'decoy': decoy})
             else:
-                a = anndata.AnnData(X=np.zeros(M.shape, dtype=np.float32), obs=obs, var=var, layers={'raw': X})
+                decoy = (np.arange(M.size, dtype=np.float32).reshape(M.shape) % 3) + 0.25
+                a = anndata.AnnData(X=decoy, obs=obs, var=var, layers={'raw': X})
             a.write_h5ad(src)
         digest0 = hashlib.sha256(open(src, 'rb').read()).hexdigest()
         dst = os.path.join(d, 'out.h5ad')
@@ -197,6 +200,98 @@ def _case(args):
     return 'done', bad
 
 
+def _rechunk(path, key, chunks):
+    import h5py
+    with h5py.File(path, 'a') as f:
+        ds = f[key]
+        data = ds[()]
+        attrs = dict(ds.attrs)
+        del f[key]
+        new = f.create_dataset(key, data=data, chunks=chunks)
+        for k, v in attrs.items():
+            new.attrs[k] = v
+
+
+def _big_case(args):
+    """matrices stored in several HDF5 chunks; the non-integral values sit only at the start / in the
+    middle / at the end of the stored array / nowhere (Validate.tla: rounding is decided by the whole
+    matrix, every value moves by at most one half)"""
+    enc, where, place, chunk, wd, seed = args
+    from cell_type_mapper.validation.validate_h5ad import validate_h5ad
+    from cell_type_mapper.gene_id.gene_id_mapper import GeneIdMapper
+    rng = np.random.default_rng(seed)
+    nr, nc = 90, 60
+    M = rng.integers(1, 300, size=(nr, nc)).astype(np.float64)
+    if enc != 'dense':
+        M[rng.random((nr, nc)) < 0.5] = 0.0
+    flat_rows = {'start': range(0, 3), 'middle': range(44, 47), 'end': range(nr - 3, nr), 'none': range(0)}[where]
+    for r in flat_rows:
+        for c in range(nc):
+            if M[r, c] != 0 and enc != 'csc' or enc == 'dense':
+                M[r, c] += 0.25 if (r + c) % 2 else -0.25
+    if enc == 'csc' and where != 'none':
+        cols = {'start': range(0, 3), 'middle': range(29, 32), 'end': range(nc - 3, nc)}[where]
+        for c in cols:
+            for r in range(nr):
+                if M[r, c] != 0:
+                    M[r, c] += 0.25
+    d = tempfile.mkdtemp(dir=wd)
+    bad = []
+    try:
+        names = [f'ENSMUSG{j + 1:011d}' for j in range(nc)]
+        obs = pd.DataFrame(index=pd.Index([f'c{i}' for i in range(nr)], name='cell_id'))
+        var = pd.DataFrame(index=pd.Index(names, name='gene'))
+        X = sp.csr_matrix(M) if enc == 'csr' else sp.csc_matrix(M) if enc == 'csc' else M
+        src = os.path.join(d, 'in.h5ad')
+        with warnings.catch_warnings():
+            warnings.simplefilter('ignore')
+            if place == 'X':
+                anndata.AnnData(X=X, obs=obs, var=var).write_h5ad(src)
+                key = 'X'
+            else:
+                anndata.AnnData(X=np.zeros(M.shape, dtype=np.float32), obs=obs, var=var,
+                                layers={'raw': X}).write_h5ad(src)
+                key = 'layers/raw'
+        if enc == 'dense':
+            _rechunk(src, key, (max(1, chunk // nc), nc))
+        else:
+            _rechunk(src, key + '/data', (chunk,))
+            _rechunk(src, key + '/indices', (chunk,))
+        dst = os.path.join(d, 'out.h5ad')
+        os.makedirs(os.path.join(d, 'scratch'))
+        with warnings.catch_warnings():
+            warnings.simplefilter('ignore')
+            ret = validate_h5ad(src, gene_id_mapper=GeneIdMapper(data=dict(MAPPER)),
+                                tmp_dir=os.path.join(d, 'scratch'), layer='X' if place == 'X' else 'raw',
+                                round_to_int=True, valid_h5ad_path=dst, expected_max=None)
+        path = ret[0] if isinstance(ret, (tuple, list)) else ret
+        need = where != 'none' or place != 'X'
+        if not need:
+            if path is not None:
+                bad.append(('validate:unneeded-file', 'nothing to change but a file was written'))
+            return 'done', bad
+        if path is None or not os.path.exists(dst):
+            bad.append(('validate:no-file', f'a new file was needed (non-integral values at the {where} of the stored '
+                                            f'array, {enc}, {place}) but validate returned {path}'))
+            return 'done', bad
+        with warnings.catch_warnings():
+            warnings.simplefilter('ignore')
+            b = anndata.read_h5ad(dst)
+        Xo = b.X.toarray() if sp.issparse(b.X) else np.asarray(b.X)
+        if not np.all(np.abs(Xo.astype(np.float64) - M) <= 0.5) or not np.all(Xo == np.round(Xo)):
+            w = np.argwhere((np.abs(Xo.astype(np.float64) - M) > 0.5) | (Xo != np.round(Xo)))[:3].tolist()
+            bad.append(('validate:rounding', f'values not moved by at most 1/2 to integers at {w} (non-integral values at '
+                                             f'the {where} of the stored array, {enc}, {place}, chunks of {chunk})'))
+        if os.listdir(os.path.join(d, 'scratch')):
+            bad.append(('validate:scratch-left', f'{os.listdir(os.path.join(d, "scratch"))}'))
+    except Exception:
+        import traceback
+        bad.append(('validate:raised', traceback.format_exc()[-600:]))
+    finally:
+        shutil.rmtree(d, ignore_errors=True)
+    return 'done', bad
+
+
 def run(ctx):
     quick = ctx.tier == 'quick'
     rng = random.Random(ctx.seed + 16)
@@ -240,6 +335,19 @@ def run(ctx):
             if ctx.report(sig, f'{msg} | scenario {json.dumps({k: s[k] for k in ("mode", "lo", "hi", "genes", "layerIsX", "round", "integral")})[:400]} ({enc})',
                           {'scenario': s, 'enc': enc}):
                 nbad += 1
+    # matrices stored in several HDF5 chunks
+    big = [(enc, where, place, chunk, wd, ctx.seed + k)
+           for k, (enc, where, place, chunk) in enumerate(
+               (e, w, pl, c) for e in ('dense', 'csr', 'csc') for w in ('start', 'middle', 'end', 'none')
+               for pl in ('X', 'layer') for c in ((256, 1000) if not quick else (256,)))]
+    with cf.ProcessPoolExecutor(max_workers=12) as ex:
+        bouts = list(ex.map(_big_case, big, chunksize=2))
+    for (enc, where, place, chunk, _, sd), (st, bad) in zip(big, bouts):
+        ctx.count({'big': [enc, where, place, chunk]}, nontrivial=True)
+        for sig, msg in bad[:2]:
+            if ctx.report(sig, msg, {'big': [enc, where, place, chunk, sd]}):
+                nbad += 1
+    ctx.part('big', cases=len(big))
     ctx.sample({'scenario': table[3]})
     ctx.sample({'scenario': ranges[0]})
     ctx.part('s2c', table_scenarios=len(table), range_scenarios=len(ranges), runs=len(jobs) - nskip,
@@ -251,7 +359,11 @@ def run(ctx):
 def replay(ctx, path):
     case = json.load(open(pathlib.Path(path) / 'replay.json'))['case']
     wd = str(ctx.tmpdir('c16_'))
-    st, bad = _case((case['scenario'], case['enc'], wd, 0))
+    if 'big' in case:
+        enc, where, place, chunk, sd = case['big']
+        st, bad = _big_case((enc, where, place, chunk, wd, sd))
+    else:
+        st, bad = _case((case['scenario'], case['enc'], wd, 0))
     for sig, msg in bad:
         ctx.report(sig, msg, case)
     ctx.count(case)
